@@ -603,6 +603,7 @@ def discharge_pool(sers: List[Dict[str, Any]], procs: Optional[int] = None) -> L
         spawn()
     out: List[Optional[OblResult]] = [None] * len(sers)
     running: Dict[int, Tuple[int, float]] = {}  # pid -> (task index, start time)
+    retried: set = set()
     done = 0
     while done < len(sers):
         try:
@@ -632,15 +633,21 @@ def discharge_pool(sers: List[Dict[str, Any]], procs: Optional[int] = None) -> L
                     out[idx] = OblResult(d['name'], d['kind'], 'unknown', 'z3', now - t0, detail=f'solver did not return within the hard limit of {hard_limit:.0f} s (worker killed)', meta=d['meta'])
                     done += 1
                 spawn()
-        # a worker that died on its own (out of memory, ...) loses its task: account for it
+        # a worker that died on its own (a solver crash, out of memory) loses its task: the task is given to a fresh
+        # worker once; a second death makes the obligation `unknown`
         for pid, w in list(workers.items()):
-            if not w.is_alive() and pid in running:
-                idx, t0 = running.pop(pid)
+            if not w.is_alive():
                 workers.pop(pid, None)
-                if out[idx] is None:
-                    d = sers[idx]
-                    out[idx] = OblResult(d['name'], d['kind'], 'unknown', 'z3', now - t0, detail='solver process died', meta=d['meta'])
-                    done += 1
+                if pid in running:
+                    idx, t0 = running.pop(pid)
+                    if out[idx] is None:
+                        if idx not in retried:
+                            retried.add(idx)
+                            tasks.put(idx)
+                        else:
+                            d = sers[idx]
+                            out[idx] = OblResult(d['name'], d['kind'], 'unknown', 'z3', now - t0, detail='solver process died twice on this query', meta=d['meta'])
+                            done += 1
                 spawn()
     for _ in workers:
         tasks.put(None)
@@ -763,7 +770,9 @@ class Report:
                 self.violations.append(
                     Violation(r.name, f'obligation {r.name} is refuted by {r.backend}', dict(model=r.model or {}, meta=r.meta), False, key=r.name)
                 )
-            if r.status == 'unknown':
+            if r.status == 'unknown' and not (r.kind == 'cover' and _PATHCOVER.search(r.name)):
+                # (an undecided cover of ONE path is as harmless as an uncovered one: see below; a unit whose paths
+                # are all uncovered or undecided is still reported as vacuous)
                 self.undecided.append(f'obligation={r.name} reason=solver-unknown({r.detail})')
             if r.kind in ('cover', 'canary') and r.status == 'uncovered':
                 # a single dead path is harmless (the executor keeps paths it cannot refute cheaply);
@@ -800,7 +809,10 @@ class Report:
         for line in printed_known:
             print(line)
         rc = 0
-        real.sort(key=lambda v: (not v.replayed,))  # replayed witnesses first
+        # the console shows the first few: concrete replayed witnesses AND refuted contract obligations, three of each
+        rep_first = [v for v in real if v.replayed]
+        ded_first = [v for v in real if not v.replayed]
+        real = rep_first[:3] + ded_first[:3] + rep_first[3:] + ded_first[3:]
         for n_printed, v in enumerate(real):
             path = write_replay(self.prop, v)
             rc = 1
@@ -811,6 +823,8 @@ class Report:
             print(f'  obligation: {v.obligation}\n  what: {v.what}')
         if len(real) > 6:
             print(f'  ... and {len(real) - 6} more violated obligations (replay files under {REPLAY_DIR})')
+        if real:
+            print(f'  violated: {len(ded_first)} contract obligation(s) refuted by the solvers, {len(rep_first)} bounded observation(s) with a concrete input')
         if rc == 0 and self.undecided:
             for u in self.undecided[:20]:
                 print(f'UNDECIDED property={self.prop} {u}')
